@@ -182,6 +182,9 @@ def rule_order(ctx: Ctx) -> RuleReport:
                         rep.unit(fi.key)
                         if isinstance(n, ast.GeneratorExp) and _consumed_order_free(fi.node, n):
                             rep.ok({"site": f"{fi.qual}: {short(n, 50)}", "consumer": "order-free reducer"})
+                        elif isinstance(n, ast.DictComp) and _local_dict_order_free(fi, n):
+                            # the same as a loop over the set that stores into a dictionary nobody iterates
+                            rep.ok({"site": f"{fi.qual}: {short(n, 50)}", "consumer": "dictionary used by key / as **keywords only"})
                         else:
                             rep.fail(Finding("C06-ORDER", fi.module.rel, fi.qual, short(n), f"comprehension over a set produces its elements in hash-seed dependent order", line=n.lineno))
             if isinstance(n, ast.For) and ss.is_set(n.iter):
@@ -201,6 +204,24 @@ def rule_order(ctx: Ctx) -> RuleReport:
     if n_sets < 5:
         raise AnalysisError(f"C06-ORDER: only {n_sets} uses of set-valued iterables recognised (recogniser broken)")
     return rep
+
+
+def _local_dict_order_free(fi: FuncInfo, comp: ast.DictComp) -> bool:
+    """the dictionary built by the comprehension is bound to a local that is only looked up by key, tested for membership, measured or
+    unpacked as keyword arguments: its insertion order reaches nothing"""
+    tgt = next((a.targets[0].id for a in walk_own(fi.node) if isinstance(a, ast.Assign) and a.value is comp and len(a.targets) == 1 and isinstance(a.targets[0], ast.Name)), None)
+    if tgt is None:
+        return False
+    if sum(1 for a in walk_own(fi.node) if isinstance(a, ast.Name) and a.id == tgt and isinstance(a.ctx, ast.Store)) != 1:
+        return False
+    for n in ast.walk(fi.node):
+        for ch in ast.iter_child_nodes(n):
+            if isinstance(ch, ast.Name) and ch.id == tgt and isinstance(ch.ctx, ast.Load):
+                ok = (isinstance(n, ast.keyword) and n.arg is None) or (isinstance(n, ast.Subscript) and n.value is ch) or (isinstance(n, ast.Compare) and ch in n.comparators and all(isinstance(o, (ast.In, ast.NotIn)) for o in n.ops)) \
+                    or (isinstance(n, ast.Call) and isinstance(n.func, ast.Name) and n.func.id in ("len", "bool") and ch in n.args) or (isinstance(n, ast.Attribute) and n.attr in ("get", "__contains__", "__getitem__"))
+                if not ok:
+                    return False
+    return True
 
 
 def _consumed_order_free(fn, gen) -> bool:
